@@ -8,6 +8,7 @@ CONSTANTS
   Steps = {1, 2}
   KindRule = "own"
   Bug = "wrong_cache"
+  ExpiryJitter = 0
 VIEW view
 INVARIANTS TypeOK HitIsFresh HitIsMeasuredVerdict MissProbes Bounded EvictedNeverServed Placement LruInSync NoRejuvenation
 PROPERTIES StoredWhereMeasured
